@@ -247,8 +247,37 @@ def run(prop, seed, budget, ctx):
             for view, fn, c in (("serialization_schema", _ss, foo_to_int), ("deserialization_schema", deserialization_schema, foo_from_int)):
                 got = outcome(lambda: fn(tp, with_schema=False, conversion=c)); want = outcome(lambda: fn(ref, with_schema=False))
                 if got != want: fail("schema-of-the-converted-class-differs-from-its-source/target", desc=desc, view=view, got=show(got), expected=show(want))
+    # field-level conversions whose source / target contains named types (used twice, or recursive): the schema of the holder is the schema of the same
+    # holder declared with the source types - references and definitions included
+    from common import build_module as _bm2
+    fc_src = ["from dataclasses import dataclass, field", "from typing import *", "from apischema.metadata import conversion", ""]
+    nfc = 6 * budget
+    for i in range(nfc):
+        fc_src += ["@dataclass", f"class FPoint{i}:", "    x: int = 0", "    y: int = 0", "",
+                   f"class FPixel{i}:", "    def __init__(self, x, y): self.x, self.y = x, y", "",
+                   f"def fpx_from{i}(p: FPoint{i}) -> FPixel{i}:", f"    return FPixel{i}(p.x, p.y)", f"def fpx_to{i}(px: FPixel{i}) -> FPoint{i}:", f"    return FPoint{i}(px.x, px.y)", "",
+                   "@dataclass", f"class FSeg{i}:", f"    a: FPixel{i} = field(metadata=conversion(fpx_from{i}, fpx_to{i}))", f"    b: FPixel{i} = field(metadata=conversion(fpx_from{i}, fpx_to{i}))", "",
+                   "@dataclass", f"class FSegSrc{i}:", f"    a: FPoint{i}", f"    b: FPoint{i}", "",
+                   "@dataclass", f"class FRNode{i}:", "    v: int = 0", f"    kids: List['FRNode{i}'] = field(default_factory=list)", "",
+                   f"class FTree{i}:", "    def __init__(self, n): self.n = n", "",
+                   f"def ftree_from{i}(n: FRNode{i}) -> FTree{i}:", f"    return FTree{i}(n)", f"def ftree_to{i}(t: FTree{i}) -> FRNode{i}:", "    return t.n", "",
+                   "@dataclass", f"class FGarden{i}:", f"    tree: FTree{i} = field(metadata=conversion(ftree_from{i}, ftree_to{i}))", "",
+                   "@dataclass", f"class FGardenSrc{i}:", f"    tree: FRNode{i}", ""]
+    fcm = dict(vars(_bm2(fc_src, f"c12fieldconv{seed}")))
+    import sys as _sys
+    for i in range(nfc):
+        for holder, ref in ((f"FSeg{i}", f"FSegSrc{i}"), (f"FGarden{i}", f"FGardenSrc{i}")):
+            for all_refs in (False, True):
+                for view, fn in (("deserialization_schema", deserialization_schema), ("serialization_schema", _ss)):
+                    evaluations += 1; distinct.add(("field-conversion-named", holder[:5], all_refs, view))
+                    lim = _sys.getrecursionlimit(); _sys.setrecursionlimit(1200)
+                    try:
+                        got = outcome(lambda: json.loads(json.dumps(fn(fcm[holder], all_refs=all_refs, with_schema=False)).replace(holder, "H")))
+                        want = outcome(lambda: json.loads(json.dumps(fn(fcm[ref], all_refs=all_refs, with_schema=False)).replace(ref, "H")))
+                    finally: _sys.setrecursionlimit(lim)
+                    if got != want: fail("schema-of-the-converted-class-differs-from-its-source/target", desc={"field_conversion_to": holder, "all_refs": all_refs}, view=view, got=show(got), expected=show(want))
     return {"evaluations": evaluations, "distinct_nontrivial": len(distinct),
-            "rule": "method / property serializers (registered or dynamic) with overriding subclasses; dynamic / field conversions next to unsupported union alternatives (operations and schemas); "
+            "rule": "field conversions to sources with named / recursive types (schemas with references); method / property serializers (registered or dynamic) with overriding subclasses; dynamic / field conversions next to unsupported union alternatives (operations and schemas); "
                     "fresh wrapper classes with a deserializer S -> W and a serializer W -> S over six source types, registered or dynamic, 40% of the "
                     "converters raising ValueError under catch_value_error, 30% of the registered ones with a second deserializer; every datum of a "
                     "per-source pool (valid and invalid); four-level class hierarchies with a serializer at the root and one (inherited or not) below it; "
